@@ -1301,7 +1301,7 @@ fn mode_run(args: &[String]) -> i32 {
     let audit_pct: u64 = arg_value(args, "--audit-pct")
         .and_then(|s| s.parse().ok())
         .unwrap_or(if tier == "thorough" { 10 } else { 100 });
-    let max_wall: u64 = arg_value(args, "--max-wall-s").and_then(|s| s.parse().ok()).unwrap_or(if tier == "thorough" { 1500 } else { 100 });
+    let max_wall: u64 = arg_value(args, "--max-wall-s").and_then(|s| s.parse().ok()).unwrap_or(if tier == "thorough" { 2000 } else { 100 });
     println!("simhist: VERIF_SEED={} tier={} episodes={} (systematic {}) jobs={}", verif_seed, tier, episodes, n_sys, jobs);
 
     // scenario episodes first (the long ones should not be the last to start), then the numbered episodes
